@@ -129,7 +129,7 @@ pub fn spec_for(property: &str) -> Option<CheckSpec> {
             parts: vec![part("store-mem", 12_000, 1_500_000), part("store-rocks", 400, 40_000)],
             assumptions: STORE_ASSUMPTIONS.iter().map(|s| s.to_string()).collect(),
         },
-        "C14" => CheckSpec { property: "C14", level: "exploration", parts: vec![part("agent-c14", 3000, 200_000), part("agent-mix", 1000, 100_000)], assumptions: a() },
+        "C14" => CheckSpec { property: "C14", level: "exploration", parts: vec![part("agent-c14", 2000, 200_000), part("agent-mix", 1000, 100_000)], assumptions: a() },
         _ => return None,
     })
 }
